@@ -128,7 +128,37 @@ func (e *posEngine) generate(r *rng, n int, tier string, emit func(string)) {
 		if via != 100 && r.chance(1, 9) {
 			via = 101
 		}
+		if via < 100 && r.chance(1, 8) {
+			via = 102 + r.intn(2)
+		}
 		switch {
+		case via == 102:
+			// a user macro (defined on earlier lines) whose expansion IS its rest-parameter list — the operands as written at
+			// the call — evaluated as a call that fails in a builtin: the fault is at the macro call, never at the definition
+			mac := r.pick([]string{"(defmacro call-it (fn [& form]\n  form))", "(defmacro call-it (fn [ignored & form]\n  form))", "(defmacro call-it\n  (fn [& form]\n    (do form)))"})
+			tb.write(mac + "\n")
+			for k, m := 0, r.intn(3); k < m; k++ {
+				tb.write(r.pick(fillerForms) + "\n")
+			}
+			lead := ""
+			if strings.Contains(mac, "ignored") {
+				lead = ":skipped "
+			}
+			fault = r.pick([]string{"(call-it " + lead + "nth [1 2] 7)", "(call-it " + lead + "+ 1 \"s\")", "(call-it " + lead + "nth [1 2]\n  7)"})
+			place(strings.Replace(r.pick([]string{"%s", "(apply (fn []\n  %s) [])", "(map (fn [i]\n  %s)\n  [1 2])", "(let [a (atom 0)]\n  (swap! a (fn [x]\n    %s)))"}), "%s", fault, 1))
+		case via == 103:
+			// a user macro whose expansion is a `let` with a binding VECTOR built at run time (quasiquote turns [...] into
+			// (vec …)); the generated let is malformed: the fault is at the macro call
+			mac := r.pick([]string{"(defmacro with-value (fn [value name & body]\n  `(let [~name ~value]\n     ~@body)))", "(defmacro with-value (fn [value name & body]\n  (list 'let (vec (list name value 'dangling))\n    (first body))))"})
+			tb.write(mac + "\n")
+			for k, m := 0, r.intn(3); k < m; k++ {
+				tb.write(r.pick(fillerForms) + "\n")
+			}
+			fault = r.pick([]string{"(with-value 5 6 (+ 1 2))", "(with-value 5 \"limit\"\n  (+ 1 2))", "(with-value 5 :k 1)"})
+			if strings.Contains(mac, "dangling") {
+				fault = "(with-value 5 lim (+ lim 2))"
+			}
+			place(strings.Replace(r.pick([]string{"%s", "(map (fn [i]\n  %s)\n  [1 2])", "(list 1\n  %s)"}), "%s", fault, 1))
 		case via == 101:
 			// an ARITY mismatch raised by the binder while a builtin applies a function defined on other lines: the fault is
 			// the applying call, not the (correct) definition
